@@ -87,6 +87,9 @@ def _m(name, file, old, new, rule=None, count=1):
 
 
 MUTANTS = [
+    dict(name='for-body-comprehension-after-unregistering', rule='R-tr-name-scope', edits=[
+        dict(file=T.GEN[2], old="    # Then visit all statements inside the loop\n    body = []\n    for body_stmt in node.body:\n      body.append( s.visit( body_stmt ) )\n", new="", count=1),
+        dict(file=T.GEN[2], old="    s.loop_var_env.remove( loop_var_name )\n", new="    s.loop_var_env.remove( loop_var_name )\n    body = [ s.visit( body_stmt ) for body_stmt in node.body ]\n", count=1)]),
     _m('yosys-countdown-without-wrap-guard', YB2, "      guard = f\" && {loop_var} <= {start}\"", "      guard = ''", 'R-tr-for'),
     _m('yosys-countdown-guard-compares-with-end', YB2, "      guard = f\" && {loop_var} <= {start}\"", "      guard = f\" && {loop_var} <= {end}\"", 'R-tr-for'),
     _m('yosys-negative-constant-step-emitted-as-translated', YB2, "        step_abs = str( -int( node.step._value ) )", "        pass", 'R-tr-for'),
@@ -297,6 +300,8 @@ MUTANTS = [
 ]
 
 EQUIV = [
+    _m('for-body-visited-by-comprehension', T.GEN[2], "    # Then visit all statements inside the loop\n    body = []\n    for body_stmt in node.body:\n      body.append( s.visit( body_stmt ) )\n", "    # Then visit all statements inside the loop\n    body = [ s.visit( body_stmt ) for body_stmt in node.body ]\n"),
+    _m('for-body-visited-by-map', T.GEN[2], "    # Then visit all statements inside the loop\n    body = []\n    for body_stmt in node.body:\n      body.append( s.visit( body_stmt ) )\n", "    # Then visit all statements inside the loop\n    body = list( map( s.visit, node.body ) )\n"),
     _m('yosys-negative-constant-step-by-abs', YB2, "        step_abs = str( -int( node.step._value ) )", "        step_abs = str( abs( int( node.step._value ) ) )"),
     dict(name='yosys-for-begin-end-condition-in-a-local', edits=[
         dict(file=YB2, old="    begin    = ' begin' if s.count_stmts( node.body ) > 1 else ''\n\n    cmp_op", new="    multi    = s.count_stmts( node.body ) > 1\n    begin    = ' begin' if multi else ''\n\n    cmp_op", count=1),
